@@ -90,6 +90,14 @@ func runC16(c *core.Ctx) {
 		c.Violation("the command without spec and its twin with the explicit spec differ", map[string]interface{}{"no_spec": ka, "explicit": kb}, nil)
 		return
 	}
+	if oa.Stderr != ob.Stderr || oa.Stdout != ob.Stdout {
+		// same name, same declarations, same (generated / written) spec text: whatever is printed is printed by both alike
+		c.Violation("the command without spec and its twin with the explicit spec print different texts", map[string]interface{}{"no_spec": truncateStr(oa.Stderr, 400), "explicit": truncateStr(ob.Stderr, 400)}, nil)
+		return
+	}
+	if oa.Stderr != "" {
+		c.Inc("printed_texts_equal")
+	}
 	if !FoldedEq(explModel, argv) && !versionRequest {
 		if v, _ := decideBoth(explModel, BuildNFA(explModel, false), BuildNFA(explModel, true), argv); !v.Unclaimed && v.Accept != oa.Accepted() {
 			c.Violation(fmt.Sprintf("reference accept=%v for the implicit spec, library accept=%v", v.Accept, oa.Accepted()), nil, nil)
